@@ -58,40 +58,40 @@ EXPLANATION: Dict[str, str] = {}
 CLAIMS: Dict[str, Tuple[str, str]] = {
     "C01": ("the wait set before a step (strict has_passed on every predecessor with the connection's minimum delay, awaited to completion), the Progress wake-up protocol, completeness of the progress bound incl. steps in flight, the queue discipline of the pending steps (heappush needs heappop), min-tables independent of registration order, connection tables written by connect only, a delay is never identified by its tiers alone, the atomic publish of a finished step's triggers",
             "sufficiency of these local obligations for causality under all interleavings (inductive protocol argument)"),
-    "C02": ("who creates/moves/removes demanded steps, dedup + wake-iff-earlier in schedule_step, self-step iff < until, trigger iff attribute present at output time + delay, popped step == settled progress, bounds see steps in flight",
+    "C02": ("who creates/moves/removes demanded steps, dedup + wake-iff-earlier in schedule_step, self-step iff < until, trigger iff attribute present at output time + delay, popped step == settled progress, bounds see steps in flight; the defaults table that decides which inputs are triggers (all 192 combinations), the trigger test is presence (not value) of the attribute, the simulator type is read alike by the model factory and the runner",
             "equality of the executed and the demanded step set over all behaviours"),
-    "C03": ("no mosaik-owned container is aliased into the step inputs (freshness depth), the cache lookup returns the greatest key <= time whatever the insertion order and the pruner keeps every entry it can still return, the producers' progress bounds see steps in flight, set_data inputs are taken and cleared, buffered values are delivered iff popped at the first step >= their due time in production order, the memory is written back only into existing keys, push/pull use the connection's time shift and the reported output time, delay tables are minima",
+    "C03": ("no mosaik-owned container is aliased into the step inputs (freshness depth), the cache lookup returns the greatest key <= time whatever the insertion order and the pruner keeps every entry it can still return, the producers' progress bounds see steps in flight, set_data inputs are taken and cleared, buffered values are delivered iff popped at the first step >= their due time in production order, the memory is written back only into existing keys, push/pull use the connection's time shift and the reported output time, delay tables are minima; every entity carries the model of its own type (child entities are classified by their own attribute sets)",
             "value-level equality of inputs with the producers' histories; sub-time of weak delays on the data path (known finding W1, rule R21)"),
-    "C04": ("registration-order independence of every derived table (min-tables under a total order on same-shape operands), the wait sets (predecessors, async consumers unconditionally, all consumers under lazy stepping), confinement of lazy_stepping and rt_strict (pass-through only), the reply of a simulator is only read and reaches the scheduler unchanged (in-process and remote agree), cache on/off agreement at the structural points where they differed (aliasing, floor entry), write-back discipline",
+    "C04": ("registration-order independence of every derived table (min-tables under a total order on same-shape operands), the wait sets (predecessors, async consumers unconditionally, all consumers under lazy stepping), confinement of lazy_stepping and rt_strict (pass-through only), the reply of a simulator is only read and reaches the scheduler unchanged (in-process and remote agree), cache on/off agreement at the structural points where they differed (aliasing, floor entry), write-back discipline; progress bounds see the step in flight until its outputs are fetched (not only while step() runs)",
             "equality of observation sequences across interleavings and across the cache/push paths in general"),
-    "C05": ("no lost wake-up (Progress, next_step_settled), every wait target is dominated by a bound containing until, progress bounds are minima over all step sources, comparison sites of the partial interval order",
+    "C05": ("no lost wake-up (Progress, next_step_settled), every wait target is dominated by a bound containing until, progress bounds are minima over all step sources, comparison sites of the partial interval order; nothing mutable is created in a class body and shared by all proxies (a class-level lock), future-dated output times start at sub-step 0",
             "absence of deadlock for all accepted scenarios (liveness of the whole protocol)"),
-    "C06": ("min-tables and update_min contract, lexicographic order methods, comparison sites (two path-sum sites are the known finding D16)",
+    "C06": ("min-tables and update_min contract, lexicographic order methods, comparison sites (two path-sum sites are the known finding D16); connect() registers the async edges exactly under its flag, `world.group()` blocks nest (the entry group is remembered per block)",
             "exactness of the closure over all multigraphs"),
     "C07": ("term completeness of max_advance incl. in-flight ancestors, <= until, = until without trigger ancestors, the value reaches the simulator unchanged",
             "traceability of later steps over a whole run"),
-    "C08": ("TieredInterval.__lt__ as the product of its scan loop with the order specification derived from the arrival-time semantics (all letter sequences, both cutoff directions, history: trichotomy and 'a smaller delay never arrives later'), TieredTime.__lt__ a tuple comparison, derived operators and a hand-written == consistent with the fields, structural clauses of the additions (dependence on the cutoff, result pre_length, smaller cutoff), no delay identified by its tiers alone",
+    "C08": ("TieredInterval.__lt__ as the product of its scan loop with the order specification derived from the arrival-time semantics (all letter sequences, both cutoff directions, history: trichotomy and 'a smaller delay never arrives later'), TieredTime.__lt__ a tuple comparison, derived operators and a hand-written == consistent with the fields, structural clauses of the additions (dependence on the cutoff, result pre_length, smaller cutoff), no delay identified by its tiers alone; and the uses of the arithmetic that the statement names: min-combination of parallel connections in connect_one, the two closures (every path relaxed until nothing changes), the zero test on the tiers only",
             "the tier arithmetic of the additions: associativity, action law, 'adding a delay never moves time backwards' (value arithmetic)"),
-    "C09": ("guard placement before the step, all sub-tiers, >= against the configured bound, SimulationError naming the simulator, sub-tier accounting of the output time, and what makes a sub-step count: every trigger entry carries its own connection's delay (a time-shifted trigger next to a weak one must leave the loop), and a simulator does not run sub-steps ahead of its consumers (the lazy wait includes the sub-tiers)",
+    "C09": ("guard placement before the step, all sub-tiers, >= against the configured bound, SimulationError naming the simulator, sub-tier accounting of the output time, and what makes a sub-step count: every trigger entry carries its own connection's delay (a time-shifted trigger next to a weak one must leave the loop), and a simulator does not run sub-steps ahead of its consumers (the lazy wait includes the sub-tiers); the step in flight bounds the loop partners until its outputs are fetched, every triggered (simulator, delay) pair is scheduled",
             "'time then advances normally' (behaviour)"),
-    "C10": ("under the flag every direct consumer contributes a has_reached(next_step + adapt) wait that is awaited before the step; the consumer's progress is a lower bound on its outstanding steps; the successors table is written by connect only (no pruning pass)",
+    "C10": ("under the flag every direct consumer contributes a has_reached(next_step + adapt) wait that is awaited before the step; the consumer's progress is a lower bound on its outstanding steps; the successors table is written by connect only (no pruning pass); the lazy wait precedes the pop of the step, unconditionally, in sim_process",
             "the run-ahead bound over executions"),
-    "C11": ("the rejection table of connect_one as an exhaustive decision table (exactly the four rejection classes, ScenarioError), no data-flow effect in any rejected row, which table gets which entry in every accepted row, weak needs a shared non-root group, shift/weak tiers, identity semantics of simulator groups, and the classification the table reads (defaults table, forbidden kinds and triple inference of parse_attrs: which inputs are non-trigger decides which connections need initial data)",
+    "C11": ("the rejection table of connect_one as an exhaustive decision table (exactly the four rejection classes, ScenarioError), no data-flow effect in any rejected row, which table gets which entry in every accepted row, weak needs a shared non-root group, shift/weak tiers, identity semantics of simulator groups, and the classification the table reads (defaults table, forbidden kinds and triple inference of parse_attrs: which inputs are non-trigger decides which connections need initial data); connect() only reads its arguments (the caller's initial_data survives), group blocks nest",
             "'exactly when' over all concrete model descriptions"),
-    "C12": ("the co-finite set algebra exhaustively (pointwise truth tables of every OutSet operator and branch), the inference equations and rejections of parse_set_triple, the defaults table of parse_attrs for all 192 combinations of type x any_inputs x present keys, the forbidden-kind guards, tuple order writer/reader agreement",
+    "C12": ("the co-finite set algebra exhaustively (pointwise truth tables of every OutSet operator and branch), the inference equations and rejections of parse_set_triple, the defaults table of parse_attrs for all 192 combinations of type x any_inputs x present keys, the forbidden-kind guards, tuple order writer/reader agreement; the type a pre-v3 simulator announces survives adaptation (only a missing type is defaulted), factory and runner read the type alike",
             "the value-level input/output relation of parse_attrs over all concrete descriptions"),
-    "C13": ("decision table of scheduler.step / get_outputs over the reply: every malformed reply class has a dominating SimulationError naming the simulator and precedes every effect; what is validated is the reply itself (SimRunner, adapters and remote proxy return exactly the awaited forward, no conversion, no edit, handlers re-raise); the popped step is never re-inserted",
+    "C13": ("decision table of scheduler.step / get_outputs over the reply: every malformed reply class has a dominating SimulationError naming the simulator and precedes every effect; what is validated is the reply itself (SimRunner, adapters and remote proxy return exactly the awaited forward, no conversion, no edit, handlers re-raise); the popped step is never re-inserted; factory and runner read the announced type alike (the runner's copy decides what is demanded of the reply), an exception of a plain in-process method is not caught by the generator-protocol handler",
             "reply classes not listed in the statement"),
-    "C14": ("cleanup is reached from every exit of run() (try/finally), covers every simulator, is exception-isolated and idempotent, closes channel / reader task / server socket / loop on every path; every created task has an owner that awaits it concurrently and cancels + drains it on failure and cancellation exits; the reader task cannot await itself; connection loss becomes a SimulationError naming the simulator; no wrapper on the way swallows a simulator's exception (handlers re-raise, no normal return from a handler)",
+    "C14": ("cleanup is reached from every exit of run() (try/finally), covers every simulator, is exception-isolated and idempotent, closes channel / reader task / server socket / loop on every path; every created task has an owner that awaits it concurrently and cancels + drains it on failure and cancellation exits; the reader task cannot await itself; connection loss becomes a SimulationError naming the simulator; no wrapper on the way swallows a simulator's exception (handlers re-raise, no normal return from a handler); a created coroutine of the package is awaited or handed on (never returned un-awaited from a coroutine), adapters do not re-send or swallow",
             "promptness (timing), behaviour for each crash point, child-process reaping, faults inside mosaik_api_v3"),
     "C15": ("request shapes of every Proxy.send site (step: exactly 3 positional arguments, no keyword arguments), the feature/adapter table (max_advance, setup_done, missing type), thresholds and nesting order of the adapters for representative versions, the two rejections dominate the wrapping, configured and reported versions are parsed alike, in-process time_resolution handling, adapters are transparent for errors (no forward inside a swallowing try) and the meta they adapt is one stable object",
             "'sees the same scheduling and data as a current-version simulator' (behaviour)"),
-    "C16": ("the producer waits unconditionally for its async consumers, set_data/get_data are gated by _assert_async_requests (ScenarioError for both missing-connection cases) before any access, set_data inputs are consumed exactly once (take and clear), connect_async_requests fills successors, successors_to_wait_for and input_delays",
+    "C16": ("the producer waits unconditionally for its async consumers, set_data/get_data are gated by _assert_async_requests (ScenarioError for both missing-connection cases) before any access, set_data inputs are consumed exactly once (take and clear), connect_async_requests fills successors, successors_to_wait_for and input_delays; the producer's bound sees the step in flight until its outputs are fetched",
             "the ordering clause over executions"),
-    "C17": ("set_event decision table (error outside real-time mode before any effect, schedule iff < until else warn, lifted to the simulator's tiers), rt_factor validated and scaled by time_resolution before it is stored, real-time progress term, polling wait with timeout=rt_factor, rt_check table (RuntimeError iff rt_strict), rt_strict confined, rt_start exists before any process runs and is read off the clock when the processes are created",
+    "C17": ("set_event decision table (error outside real-time mode before any effect, schedule iff < until else warn, lifted to the simulator's tiers), rt_factor validated and scaled by time_resolution before it is stored, real-time progress term, polling wait with timeout=rt_factor, rt_check table (RuntimeError iff rt_strict), rt_strict confined, rt_start exists before any process runs and is read off the clock when the processes are created; a self-step is pushed onto the heap of pending steps (pending external events survive), the world's until / rt_factor exist before run() first suspends",
             "every wall-clock clause (timing is a runtime quantity)"),
-    "C18": ("returned set == set of destinations passed to connect (same loop nest, same conditions, over every return), exactly one connect per source in connect_many_to_one and on every path of _connect_randomly, chunk stride == window width in _connect_evenly, per-destination bookkeeping (count from 0, ++, removal iff count >= max_connects) on every path whose guard does not bound the number of sources by max_connects, entities are distinct set members / dict keys (identity or unique-id equality)",
-            "the numeric clauses (difference <= 1, behaviour at the exact capacity boundary, D6)"),
+    "C18": ("returned set == set of destinations passed to connect (same loop nest, same conditions, over every return), exactly one connect per source in connect_many_to_one and on every path of _connect_randomly, chunk stride == window width in _connect_evenly, per-destination bookkeeping (count from 0, ++, removal iff count >= max_connects) on every path whose guard does not bound the number of sources by max_connects, entities are distinct set members / dict keys (identity or unique-id equality); a request is refused up front iff len(src_set) > len(dest_set) * max_connects, no container default is changed from call to call",
+            "the numeric clauses (difference <= 1 over all random draws; D6)"),
 }
 
 ASSUMPTIONS_COMMON = [
